@@ -314,39 +314,39 @@ pub fn replay_programs(ctx: &Ctx) -> Option<Vec<Program>> {
     Some(vec![p])
 }
 
-pub fn run(ctx: &Ctx) -> i32 {
+const A_SERDE: &str = "typed argument values are obtained from model JSON through each argument type's own serde impl (cosmwasm-std / svrt types), not through sylvia-generated code";
+const A_NATIVE: &str = "generated code is exercised natively, not on wasm32";
+const A_ECHO: &str = "handler bodies are generated echo functions (svrt::echo_*); user logic inside handlers is out of scope";
+const A_DOMAIN: &str = "program generator domain: 0..3 interfaces, all non-reply kinds, 0..3 generic parameters with where-clause bounds, custom msg/query variants, forwarded attributes; no lifetimes, pattern parameters or inline bounds";
+
+fn msg_family(ctx: &Ctx, s2: bool, family: &'static str, rule: &'static str, assumptions: &[&str]) -> Outcome {
     let quick = ctx.quick();
     let (nprog, cases) = if quick { (48usize, 64u32) } else { (320, 256) };
+    let opts = GenOpts { s2_names: s2, ..GenOpts::default() };
+    let programs = replay_programs(ctx).unwrap_or_else(|| crate::fam_msg(ctx.seed, nprog, &opts));
+    e2_run(ctx, E2Spec { family, programs, cases, rule, assumptions: assumptions.iter().map(|s| s.to_string()).collect(), alias: None })
+}
+
+pub fn run(ctx: &Ctx) -> i32 {
     let out = match ctx.prop.as_str() {
-        "C01" => {
-            let programs = replay_programs(ctx).unwrap_or_else(|| crate::fam_msg(ctx.seed, nprog, &msg_opts_s1()));
-            e2_run(ctx, E2Spec {
-                family: "fam_msg_s1",
-                programs,
-                cases,
-                rule: "programs drawn from the fam_msg generator (0..3 interfaces, all five non-reply kinds, generic/custom variants, S1 method names); per handler `cases` argument tuples from per-type JSON strategies; oracle = model JSON {name:{arg:enc}} vs to_json, literal==constructor, from_json of own and model text; plus per message type the accept/reject set over all method names and their mutations. Non-trivial = handler has >=1 argument or a multi-word / digit-bearing name (distinct by program, handler, argument values), or a foreign-name acceptance probe.",
-                assumptions: vec![
-                    "typed argument values are obtained from model JSON through each argument type's own serde impl (cosmwasm-std / svrt types), not through sylvia-generated code".into(),
-                    "floats and raw u128 are excluded (CosmWasm JSON rejects them)".into(),
-                    "generated code is exercised natively, not on wasm32".into(),
-                ],
-                alias: None,
-            })
-        }
-        "C02" => {
-            let programs = replay_programs(ctx).unwrap_or_else(|| crate::fam_msg(ctx.seed, nprog, &msg_opts_s1()));
-            e2_run(ctx, E2Spec {
-                family: "fam_msg_s1",
-                programs,
-                cases,
-                rule: "fam_msg programs with echo handlers; per handler `cases` tuples (argument values, env, sender/funds, storage/api/querier nonces, ok/fail outcome); message dispatched on the part type and through the contract-level wrapper; oracle = call log == [that handler] once with equal args/env/info and nonce probes, caller's response / error / query payload equal to the handler's own. Non-trivial = two same-typed arguments, a same-signature sibling handler, or the failing outcome.",
-                assumptions: vec![
-                    "handler bodies are generated echo functions (svrt::echo_*); user logic inside handlers is out of scope".into(),
-                    "mock storage/api/querier stand in for the chain".into(),
-                ],
-                alias: None,
-            })
-        }
+        "C01" => msg_family(ctx, false, "fam_msg_s1",
+            "programs drawn from the fam_msg generator (S1 method names); per handler `cases` argument tuples from per-type JSON strategies; oracle = model JSON {name:{arg:enc}} vs to_json, literal==constructor, from_json of own and model text; plus per message type the accept/reject set over all method names and their mutations. Non-trivial = handler has >=1 argument or a multi-word / digit-bearing name (distinct by program, handler, argument values), or a foreign-name acceptance probe.",
+            &[A_SERDE, A_NATIVE, A_DOMAIN, "floats and raw u128 are excluded (CosmWasm JSON rejects them)"]),
+        "C02" => msg_family(ctx, false, "fam_msg_s1",
+            "fam_msg programs with echo handlers; per handler `cases` tuples (argument values, env, sender/funds, storage/api/querier nonces, ok/fail outcome); message dispatched on the part type and through the contract-level wrapper; oracle = call log == [that handler] once with equal args/env/info and nonce probes, caller's response / error / query payload equal to the handler's own. Non-trivial = two same-typed arguments, a same-signature sibling handler, or the failing outcome.",
+            &[A_ECHO, A_SERDE, A_NATIVE, A_DOMAIN, "mock storage/api/querier stand in for the chain"]),
+        "C03" => msg_family(ctx, true, "fam_msg_s2",
+            "fam_msg programs with S2 method names (digits inside words, digit-only words, leading/doubled underscores); per kind `cases` documents: well-formed messages of every part and 12 classes of malformed documents derived from them (as text, incl. duplicate keys); differential oracle: wrapper accepts iff exactly one part accepts, same value, same re-encoding, same handler reached, never panics, unknown-name errors list every supported name. Non-trivial = malformed document or a name with a letter/digit boundary or leading/doubled underscore.",
+            &[A_ECHO, A_NATIVE, A_DOMAIN, "the oracle never predicts a wire name: it compares the wrapper with the parts (names observed by serialising each variant)", "programs do not forward serde(rename) attributes"]),
+        "C04" => msg_family(ctx, true, "fam_msg_s2",
+            "fam_msg programs in which names (and often argument lists) are shared between kinds of different parts; for every handler of kind K1 `cases` well-formed K1 documents are sent to the entry point of a different kind K2 (generated entry_points::<k2> and the cw_multi_test::Contract impl); invariant: decoding fails or every handler in the call log is annotated K2. Non-trivial = the K2 entry point accepted the document and ran a handler.",
+            &[A_ECHO, A_NATIVE, A_DOMAIN, "reply entry points are covered by the reply family (C07)"]),
+        "C05" => msg_family(ctx, true, "fam_msg_s2",
+            "(c) for every part and kind of every generated program: <ep>_messages() strictly ascending and equal, as a set, to the top-level keys obtained by serialising one value of every variant. Non-trivial = list with >=2 names or a digit-bearing name.",
+            &[A_NATIVE, A_DOMAIN]),
+        "C16" => msg_family(ctx, true, "fam_msg_s2",
+            "for every generated program and every part: QueryResponses::response_schemas() is Ok, its key set equals the wire names of the part's queries (plus at most one unsendable placeholder), each entry equals schema_for!(declared response type) computed from svrt's own types; the contract-level table equals the union of the parts; schema_for!(Contract{Exec,Query,Sudo}Msg) is an anyOf whose members resolve to the parts' schemas. Non-trivial = a part with >=2 distinct response types or a part-spanning union.",
+            &[A_NATIVE, A_DOMAIN, "response types: three plain structs, generic parameter, associated type, explicit resp= behind a result alias"]),
         other => {
             eprintln!("unknown property {other}");
             return 2;
